@@ -370,3 +370,18 @@ def v4_blocks(tier, mode="short", size=None):
 
     return [blk("skeleton_x_g36_free", ("g36",)),
             blk("g1_g2_g4_g5_free_x_g36_skeleton", ("g1", "g2", "g4", "g5"))]
+
+
+def many_vectors(fam, n=6000):
+    """n distinct accepted vectors of one family (distinct effective assignments), for the checks'
+    scale phases: more objects in one process than any plausible bounded cache holds."""
+    if fam == "2":
+        vs = [T.PREFIX[fam] + "/".join(x for x in (fa, fb, fc) if x) for fa, _ in v2_base_all()
+              for fb, _ in v2_temporal_effective()[::4] for fc, _ in [("", {}), ("CDP:L/TD:M", {})]]
+    elif fam == "4.0":
+        vs = [T.PREFIX[fam] + f + e for f, _ in parts(T.V4_BASE, T.V4)[::19]
+              for e in ("", "/E:P", "/CR:L/MAV:N", "/MSI:S/S:P", "/MVC:L/AR:H/U:Red")]
+    else:
+        vs = [T.PREFIX[fam] + f + e for f, _ in v3_base_all() for e in ("", "/E:P/RL:T", "/CR:H/MS:C")]
+    step = max(1, len(vs) // n)
+    return vs[::step][:n]
